@@ -55,4 +55,47 @@ PROPS = {
                 theorems=['block_conserves', 'history_conserves', 'conserve_okb_sound'],
                 rule=_RULE, assumptions=_ASSUME + ['theorems: forbid_fake_coins = true, relayer disabled'],
                 level='proof'),
+    'C06': dict(_COMMON, id='C06', tag=6,
+                n={'quick': 160, 'thorough': 4000},
+                theorems=['produce_block_ids', 'validate_rejects_duplicate', 'no_reexecution'],
+                rule=_RULE + '; every produced block is also validated in tampered variants (a transaction repeated '
+                     'inside the block, a transaction of an earlier block appended, two mints, ...)',
+                assumptions=_ASSUME + ['regenesis (export/import of ProcessedTransactions) is not covered'],
+                level='proof'),
+    'C03': dict(_COMMON, id='C03', tag=3,
+                n={'quick': 160, 'thorough': 4000},
+                theorems=['mint_last_and_exact', 'limits_respected', 'size_limit_refuted', 'validate_rejects_bad_mint'],
+                rule=_RULE + '; every produced block is also validated with a mutated mint (amount+1, price+1, '
+                     'index+1, missing, not last, doubled)',
+                assumptions=_ASSUME + ['gas bound: the VM oracle reports used gas <= max_gas (hypothesis gas_ok)',
+                                       'theorems: relayer disabled (forced transactions are executed without a gas '
+                                       'pre-check by the code)'],
+                level='proof'),
+    'C04': dict(_COMMON, id='C04', tag=4,
+                n={'quick': 160, 'thorough': 4000},
+                theorems=['reverted_effects', 'skipped_storage_unchanged', 'skipped_changes_nothing_partial',
+                          'skipped_changes_nothing_refuted'],
+                rule=_RULE, assumptions=_ASSUME + ['what the VM wrote before reverting is oracle data; the model '
+                                                   'states that it is not committed'],
+                level='proof'),
+    'C01': dict(_COMMON, id='C01', tag=1,
+                n={'quick': 160, 'thorough': 4000},
+                theorems=['produce_then_validate_partial', 'produce_then_validate_refuted'],
+                rule=_RULE, assumptions=_ASSUME + ['theorem: relayer disabled; the oracles answer in validation as '
+                                                   'in production (checked on the implementation by Pcheck: equal '
+                                                   'statuses, events, counters and full storage Changes)',
+                                                   'header hashing / state roots are compared by the implementation, '
+                                                   'not modelled'],
+                level='proof'),
+    'C45': dict(_COMMON, id='C45', tag=45,
+                n={'quick': 120, 'thorough': 3000},
+                theorems=['dry_run_function'],
+                rule=_RULE + '; before every block 1-2 dry-run requests (random subsets of the block\'s transactions, '
+                     'utxo validation default/on/off, with and without storage-read recording) are executed twice; every '
+                     'column of the on-chain and relayer databases is digested before and after',
+                assumptions=_ASSUME + ['the model carries only the call-graph argument (dry_run is a function of view '
+                                       'and request); the weight is on the digest comparison over all columns',
+                                       'txpool SpentInputs and the off-chain database are not reachable from '
+                                       'Executor::dry_run and are not instantiated'],
+                level='translation_validation'),
 }
